@@ -121,9 +121,7 @@ theorem C14_slice_size (s : Slice) (b : Buf) (hin : s.soff + (s.len.getD 0) ≤ 
   | none => simp [hl] at hin ⊢; rw [Buf.size_eq]; omega
   | some l => simp [hl] at hin ⊢; omega
 
-/- Line reads on slices (`Slice.readBytes`, the 100-byte loop over `readAt`) are covered by the correspondence only;
-   their refinement theorem is not proved yet (C14 is therefore complete for the buffer and for slice read/peek/seek/size,
-   and `_partial` for slice line reads). -/
+/- Line reads on slices (`Slice.readBytes`, the 100-byte loop over `readAt`): see `C14_slice_line` in Props/C14slice.lean. -/
 
 /-- non-vacuity: threshold 3 falls inside the first write and inside the line -/
 example : run (Buf.new 3) [.write (bs "ab\ncd"), .write (bs "e\nf"), .readBytes 10, .read 2, .peek 9, .readBytes 10, .readBytes 10]
